@@ -683,6 +683,15 @@ func (t *Target) updateMeta(clients func(*ctree.Leaf)) {
 	t.generateMetaUpdates(clients)
 }
 
+// metaValue returns the value held by a metadata leaf, nil if there is none.
+func metaValue(v interface{}) *pb.TypedValue {
+	n, _ := v.(*pb.Notification)
+	if u := n.GetUpdate(); len(u) > 0 {
+		return u[0].GetVal()
+	}
+	return nil
+}
+
 func (t *Target) generateMetaUpdates(clients func(*ctree.Leaf)) {
 	for value := range metadata.TargetBoolValues {
 		if t.excludedMeta.Contains(value) {
@@ -694,7 +703,7 @@ func (t *Target) generateMetaUpdates(clients func(*ctree.Leaf)) {
 		}
 		path := metadata.Path(value)
 		prev := t.t.GetLeafValue(path)
-		if prev == nil || prev.(*pb.Notification).Update[0].Val.Value.(*pb.TypedValue_BoolVal).BoolVal != v {
+		if pv, ok := metaValue(prev).GetValue().(*pb.TypedValue_BoolVal); !ok || pv.BoolVal != v {
 			noti := metaNotiBool(t.name, value, v)
 			if n, _ := t.gnmiUpdate(noti); n != nil {
 				if clients != nil {
@@ -714,7 +723,7 @@ func (t *Target) generateMetaUpdates(clients func(*ctree.Leaf)) {
 		}
 		path := metadata.Path(value)
 		prev := t.t.GetLeafValue(path)
-		if prev == nil || prev.(*pb.Notification).Update[0].Val.Value.(*pb.TypedValue_IntVal).IntVal != v {
+		if pv, ok := metaValue(prev).GetValue().(*pb.TypedValue_IntVal); !ok || pv.IntVal != v {
 			noti := metaNotiInt(t.name, value, v)
 			if n, _ := t.gnmiUpdate(noti); n != nil {
 				if clients != nil {
@@ -734,7 +743,7 @@ func (t *Target) generateMetaUpdates(clients func(*ctree.Leaf)) {
 		}
 		path := metadata.Path(value)
 		prev := t.t.GetLeafValue(path)
-		if prev == nil || prev.(*pb.Notification).Update[0].Val.Value.(*pb.TypedValue_StringVal).StringVal != v {
+		if pv, ok := metaValue(prev).GetValue().(*pb.TypedValue_StringVal); !ok || pv.StringVal != v {
 			noti := metaNotiStr(t.name, value, v)
 			if n, _ := t.gnmiUpdate(noti); n != nil {
 				if clients != nil {
